@@ -378,6 +378,23 @@ def run_unit_verus(unit, tier):
     for ob in res["failed"]:
         seen.setdefault(ob["id"], ob)
     res["failed"] = list(seen.values())
+    # An obligation rejected in a function that contains a construct Verus accepts without giving it a meaning (a closure
+    # without a contract, a string-literal match pattern) is undecided: the rejection may come from the missing meaning.
+    # Constructs of that kind that are present on the unchanged tree (units/opaque_baseline.json, written by
+    # tools/opaque_baseline.py) are known not to matter - every obligation is discharged with them; only NEW ones count.
+    try:
+        base = json.load(open(os.path.join(VERIF, "units", "opaque_baseline.json"))).get(unit["name"], {})
+    except Exception:
+        base = {}
+    opaque = {f["fn"]: [c for c in f.get("opaque_constructs", []) if c not in base.get(f["fn"], [])] for f in g.functions}
+    keep = []
+    for ob in res["failed"]:
+        oc = opaque.get(ob.get("fn"), [])
+        if oc:
+            res["undecided"].append("%s: rejected, but the function contains %s, which Verus accepts without a meaning: undecided, not a violation" % (ob["id"], "; ".join(oc)))
+        else:
+            keep.append(ob)
+    res["failed"] = keep
     # A genuine violation is rejected whatever the solver's search order; an obligation rejected only under
     # some seeds is a brittle proof, reported as undecided and never as a violation.
     if res["failed"]:
